@@ -232,6 +232,8 @@ class SingletonVariableGroup(BaseVariableGroup):
         return self[0]
 
     def label(self):
+        if self.name is None:
+            return 'x{}'.format(self[0])
         return self.name
 
     def indices(self, *pattern):
@@ -2179,14 +2181,17 @@ argument `default_label_format` (e.g. 'x{}').
         for vg in self._groups:
             if len(vg) == 0:
                 continue
-            if isinstance(vg, SingletonVariableGroup):
-                yield vg.name
-                varid += 1
-                continue
             begin = vg[0]
             while varid < begin:
                 yield default_label_format.format(varid)
                 varid += 1
+            if isinstance(vg, SingletonVariableGroup):
+                if vg.name is None:
+                    yield default_label_format.format(varid)
+                else:
+                    yield vg.name
+                varid += 1
+                continue
             yield from vg.label()
             varid += len(vg)
         while varid <= end:
